@@ -6,27 +6,45 @@ Both are modelled (post-fix: X10 made the interpreter's range rendering the VM's
 field order of objects the sorted key order in both). They are separate definitions on purpose:
 `display_agree` (C13) is a theorem about two mirrors, and each is tied to its own Go package.
 
-Floats: Go prints `%v` = shortest round-trip decimal; for the dyadic class of `Val.lean`
-(≤ 15 significant digits, magnitude in [1e-4, 1e21)) that is the exact decimal expansion, which
-is what `Dy.display` computes.
+Floats: Go prints `%v` = shortest round-trip decimal digits; for the dyadic class of `Val.lean`
+(≤ 15 significant digits) these are the digits of the exact decimal expansion, which is what
+`Dy.display` computes (with Go's switch to exponent notation).
 -/
 namespace Hms.Value
 
 def natDigits (n : Nat) : String := toString n
 
-/-- exact decimal expansion of `m / 2^e` (normalised first) -/
+def stripTrailingZeros (cs : List Char) : List Char :=
+  (cs.reverse.dropWhile (· == '0')).reverse
+
+def zeros (n : Nat) : String := String.ofList (List.replicate n '0')
+
+/-- Go `%v` of a float64 (`strconv.FormatFloat(x, 'g', -1, 64)`): the shortest digits that
+round-trip — for the dyadic class the exact decimal expansion — in plain notation when the
+decimal exponent is in [-4, 6), otherwise as `d.ddde±XX`. -/
 def Dy.display (d0 : Dy) : String :=
   let d := d0.norm
+  if d.m = 0 then "0" else
   let sign := if d.m < 0 then "-" else ""
-  let a := d.m.natAbs
-  if d.e = 0 then sign ++ natDigits a
+  let scaled := d.m.natAbs * 5 ^ d.e          -- |x| = scaled / 10^e
+  let all := (natDigits scaled).toList
+  let digs := stripTrailingZeros all
+  let dp : Int := (all.length : Int) - d.e    -- number of integer digits (may be ≤ 0)
+  let exp : Int := dp - 1
+  if exp < -4 ∨ exp ≥ 6 then
+    let mant := match digs with
+      | [] => "0"
+      | [c] => String.singleton c
+      | c :: rest => String.singleton c ++ "." ++ String.ofList rest
+    let ea := exp.natAbs
+    let es := (if ea < 10 then "0" else "") ++ natDigits ea
+    sign ++ mant ++ "e" ++ (if exp < 0 then "-" else "+") ++ es
+  else if dp ≤ 0 then
+    sign ++ "0." ++ zeros (-dp).toNat ++ String.ofList digs
+  else if digs.length ≤ dp.toNat then
+    sign ++ String.ofList digs ++ zeros (dp.toNat - digs.length)
   else
-    let scaled := a * 5 ^ d.e            -- a / 2^e = scaled / 10^e
-    let ip := scaled / 10 ^ d.e
-    let fp := scaled % 10 ^ d.e
-    let fs := natDigits fp
-    let pad := String.ofList (List.replicate (d.e - fs.length) '0')
-    sign ++ natDigits ip ++ "." ++ pad ++ fs
+    sign ++ String.ofList (digs.take dp.toNat) ++ "." ++ String.ofList (digs.drop dp.toNat)
 
 def intDisplay (i : BitVec 64) : String := toString i.toInt
 
